@@ -185,3 +185,20 @@ Fixpoint pa_modes (f : bool -> stat -> list Z -> stat -> Z) (s : stat) (l : list
   | [] => 0
   | (mode, (real, got)) :: r => f (mode =? g_cm_mode_self) s real got + 4096 * pa_modes f s r
   end.
+
+(* file-level time ranges: chunks = (first row time, last row time) of every series in file order (signed), the
+   trailer's (minTime, maxTime), and the meta-index entries in file order as (chunk count, (minTime, maxTime)).
+   2  the fold over all chunks is not the real trailer range;  4  the fold over the chunks of some meta-index block is
+   not that entry's range, or the counts do not add up to the number of chunks *)
+Definition rng_eqb (a b : rng) : bool := (fst a =? fst b) && (snd a =? snd b).
+Fixpoint blocks_ok (chunks : list rng) (blocks : list (Z * rng)) : bool :=
+  match blocks with
+  | [] => match chunks with [] => true | _ => false end
+  | (cnt, r) :: rest =>
+      let n := Z.to_nat cnt in
+      let '(c', r') := tr_fold (firstn n chunks) in
+      (0 <? cnt) && (c' =? cnt) && rng_eqb r' r && blocks_ok (skipn n chunks) rest
+  end.
+Definition check_ranges (chunks : list rng) (trailer : rng) (blocks : list (Z * rng)) : Z :=
+  (let '(n, r) := tr_fold chunks in if (n =? len chunks) && rng_eqb r trailer then 0 else 2) +
+  (if blocks_ok chunks blocks then 0 else 4).
